@@ -28,6 +28,8 @@ func c06(c *Ctx) {
 	c06R4(c, "R4")
 	c06R5(c, "R5")
 	c06R6(c, "R6")
+	sVoteIdentity(c, "R9/S-VOTEID")
+	sDurableElect(c, "R10/S-DURABLE")
 	sState(c, "R8/S-STATE")
 	effectFree(c, "R7", "(*Raft).requestPreVote", "change term, vote, role, leader, contact or any store", 4, stateChanging)
 }
